@@ -161,73 +161,96 @@ def cloneReshape (ts : List TensorD) (src : Nat) (reorder : Option (List Nat)) :
 
 def setAt (l : List α) (k : Nat) (a : α) : List α := l.set k a
 
-def parseOperator (codes : List RCode) (base n : Nat) (ts : List TensorD) (k : Nat) (o : OperatorT) :
-    Except String (ROp × List TensorD × Option Nat) := do
-  let code ← match codes[o.opcodeIndex]? with
-    | some c => pure c
-    | none => throw "index"
-  let ins ← match o.inputs with
-    | some l => l.mapM (resolve base n)
-    | none => throw "exit"
-  let outs ← match o.outputs with
-    | some l => l.mapM (resolve base n)
-    | none => throw "exit"
-  let inter ← match o.intermediates with
-    | some l => l.mapM (resolve base n)
-    | none => pure []
-  -- `name = outputs[0].name`, `for out in op.outputs: out.ops = [op]`
-  let fileOuts ← outs.mapM fun t => match t with
+def codeAt (codes : List RCode) (i : Nat) : Except String RCode :=
+  match codes[i]? with
+  | some c => pure c
+  | none => throw "index"
+
+/-- `[self.tensors[idx] if idx != -1 else None for idx in …AsNumpy()]`; an absent vector makes the reader exit -/
+def resolveAll (base n : Nat) (l : Option (List Int)) : Except String (List (Option Nat)) :=
+  match l with
+  | some l => l.mapM (resolve base n)
+  | none => throw "exit"
+
+def resolveIntermediates (base n : Nat) (l : Option (List Int)) : Except String (List (Option Nat)) :=
+  match l with
+  | some l => l.mapM (resolve base n)
+  | none => pure []
+
+/-- `name = outputs[0].name`, `for out in op.outputs: out.ops = [op]`: a `None` among the results is an AttributeError -/
+def fileOutputs (outs : List (Option Nat)) : Except String (List Nat) :=
+  outs.mapM fun t => match t with
     | some t => pure t
     | none => throw "attr"
+
+def virtualTensor (name : String) (k : Nat) : TensorD :=
+  { name := utf8 (name ++ "_" ++ toString k), shape := [], originalShape := [], dtype := "int8", quant := none, values := none,
+    isVariable := false, purpose := 7, memArea := 0, memType := 0, address := none, src := none }
+
+/-- AssignVariable / CallOnce get a virtual output: (tensors, `op.outputs`, the virtual tensor) -/
+def virtualStep (code : RCode) (k : Nat) (ts : List TensorD) (outs : List (Option Nat)) : List TensorD × List (Option Nat) × Option Nat :=
+  if code.op.name == "AssignVariable" || code.op.name == "CallOnce" then
+    (ts ++ [virtualTensor code.op.name k], [some ts.length], some ts.length)
+  else (ts, outs, none)
+
+/-- `if op.type.needs_bias() and len(inputs) <= op_type.info.indices.biases[0]: inputs.append(None)` -/
+def biasSlot (op : OpInfo) (ins : List (Option Nat)) : List (Option Nat) :=
+  if op.needsBias then
+    match op.nng.biases[0]? with
+    | some b0 => if ins.length ≤ b0 then ins ++ [none] else ins
+    | none => ins
+  else ins
+
+/-- `if inputs[-1] and inputs[-1].values is not None: inputs[-1] = clone_and_reshape_tensor(inputs[-1], None, True)` -/
+def biasClone (ts : List TensorD) (ins : List (Option Nat)) : Except String (List TensorD × List (Option Nat)) :=
+  match ins.getLast? with
+  | some (some b) =>
+    match ts[b]? with
+    | none => throw "ref"
+    | some tb =>
+      if tb.values.isSome then do
+        let cb ← cloneReshape ts b none
+        pure (ts ++ [cb], setAt ins (ins.length - 1) (some ts.length))
+      else pure (ts, ins)
+  | _ => pure (ts, ins)
+
+/-- reshaped clones of constant weights and bias of convolution-like operators -/
+def cloneStep (op : OpInfo) (ts : List TensorD) (ins : List (Option Nat)) : Except String (List TensorD × List (Option Nat)) :=
+  if op.convLike then
+    match ins[1]? with
+    | none => throw "index"
+    | some none => throw "attr"
+    | some (some w) =>
+      match ts[w]? with
+      | none => throw "ref"
+      | some tw =>
+        if tw.values.isSome then do
+          let c ← cloneReshape ts w (some (if op.name == "FullyConnected" then [1, 0] else [1, 2, 3, 0]))
+          biasClone (ts ++ [c]) (biasSlot op (setAt ins 1 (some ts.length)))
+        else pure (ts, ins)
+  else pure (ts, ins)
+
+def noPayload : Payload := { optType := 0, opts := none, custom := none, customFormat := 0 }
+
+def parseOperator (codes : List RCode) (base n : Nat) (ts : List TensorD) (k : Nat) (o : OperatorT) :
+    Except String (ROp × List TensorD × Option Nat) := do
+  let code ← codeAt codes o.opcodeIndex
+  let ins ← resolveAll base n o.inputs
+  let outs ← resolveAll base n o.outputs
+  let inter ← resolveIntermediates base n o.intermediates
+  let fileOuts ← fileOutputs outs
   let ins1 ← alignInputs code.indices code.op.nng ins
-  -- AssignVariable / CallOnce: a virtual output
-  let isVirt := code.op.name == "AssignVariable" || code.op.name == "CallOnce"
-  let (ts1, outs1, virt) :=
-    if isVirt then
-      let v : TensorD := { name := utf8 (code.op.name ++ "_" ++ toString k), shape := [], originalShape := [], dtype := "int8", quant := none,
-                           values := none, isVariable := false, purpose := 7, memArea := 0, memType := 0, address := none, src := none }
-      (ts ++ [v], [some ts.length], some ts.length)
-    else (ts, outs, none)
-  -- reshaped clones of constant weights / bias
-  let (ts2, ins2) ← if code.op.convLike then
-      match ins1[1]? with
-      | none => throw "index"
-      | some none => throw "attr"
-      | some (some w) =>
-        match ts1[w]? with
-        | none => throw "ref"
-        | some tw =>
-          if tw.values.isSome then do
-            let c ← cloneReshape ts1 w (some (if code.op.name == "FullyConnected" then [1, 0] else [1, 2, 3, 0]))
-            let tsA := ts1 ++ [c]
-            let insA := setAt ins1 1 (some ts1.length)
-            let insB := if code.op.needsBias then
-                match code.op.nng.biases[0]? with
-                | some b0 => if insA.length ≤ b0 then insA ++ [none] else insA
-                | none => insA
-              else insA
-            match insB.getLast? with
-            | some (some b) =>
-              match tsA[b]? with
-              | none => throw "ref"
-              | some tb =>
-                if tb.values.isSome then do
-                  let cb ← cloneReshape tsA b none
-                  pure (tsA ++ [cb], setAt insB (insB.length - 1) (some tsA.length))
-                else pure (tsA, insB)
-            | _ => pure (tsA, insB)
-          else pure (ts1, ins1)
-    else pure (ts1, ins1)
-  let payload : Payload := if code.hasSer then o.payload else { optType := 0, opts := none, custom := none, customFormat := 0 }
-  pure ({ code := code, inputs := ins2, fileOutputs := fileOuts, outputs := outs1, intermediates := inter, payload := payload }, ts2, virt)
+  let c ← cloneStep code.op (virtualStep code k ts outs).1 ins1
+  pure ({ code := code, inputs := c.2, fileOutputs := fileOuts, outputs := (virtualStep code k ts outs).2.1, intermediates := inter,
+          payload := if code.hasSer then o.payload else noPayload }, c.1, (virtualStep code k ts outs).2.2)
 
 def parseOperators (codes : List RCode) (base n : Nat) : List OperatorT → Nat → List TensorD →
     Except String (List ROp × List TensorD × List Nat)
   | [], _, ts => pure ([], ts, [])
   | o :: rest, k, ts => do
-    let (op, ts1, virt) ← parseOperator codes base n ts k o
-    let (ops, ts2, virts) ← parseOperators codes base n rest (k + 1) ts1
-    pure (op :: ops, ts2, (match virt with | some v => [v] | none => []) ++ virts)
+    let r ← parseOperator codes base n ts k o
+    let rs ← parseOperators codes base n rest (k + 1) r.2.1
+    pure (r.1 :: rs.1, rs.2.1, (match r.2.2 with | some v => [v] | none => []) ++ rs.2.2)
 
 /-- `get_tensors_from_indices_remove_duplicates` -/
 def dedupNat (l : List Nat) : List Nat := Writer.dedup l
@@ -246,55 +269,61 @@ def ROp.toOpD (op : ROp) : OpD :=
   { type := op.code.op.name, customCode := op.code.custom.getD [], version := op.code.version, inputs := op.inputs,
     outputs := op.outputs, intermediates := op.intermediates, payload := op.payload }
 
-def readSubgraph (codes : List RCode) (bufs : List (Option Data)) (ts : List TensorD) (sg : SubGraphT) :
-    Except String (SubgraphD × List TensorD) := do
-  let base := ts.length
-  let n := sg.tensors.length
-  let own ← sg.tensors.mapM (parseTensor bufs)
-  let (ops, ts1, virts) ← parseOperators codes base n sg.operators 0 (ts ++ own)
-  let outIdx ← match sg.outputs with
-    | some l => l.mapM fun i => match pyIndex (List.range n) i with
-      | some k => pure (base + k)
-      | none => throw "index"
-    | none => throw "exit"
-  let inIdx ← match sg.inputs with
-    | some l => l.mapM fun i => match pyIndex (List.range n) i with
-      | some k => pure (base + k)
-      | none => throw "index"
-    | none => throw "exit"
-  let outputs := dedupNat outIdx
-  let inputs := dedupNat inIdx
-  -- fixup_tensors: a subgraph input must not have a producer
-  if inputs.any (produced ops) then throw "vela-error"
-  let positions ← outIdx.mapM fun t => match Writer.indexIn outputs t with
+/-- `[self.tensors[idx] for idx in subgraph.InputsAsNumpy()]` (Python indexing; an absent vector makes the reader exit) -/
+def ioIndices (base n : Nat) (l : Option (List Int)) : Except String (List Nat) :=
+  match l with
+  | some l => l.mapM fun i => match pyIndex (List.range n) i with
+    | some k => pure (base + k)
+    | none => throw "index"
+  | none => throw "exit"
+
+/-- `[self.outputs.index(self.tensors[idx]) for idx in subgraph.OutputsAsNumpy()]` -/
+def positionsOf (outputs outIdx : List Nat) : Except String (List Nat) :=
+  outIdx.mapM fun t => match Writer.indexIn outputs t with
     | some p => pure p
     | none => throw "value"
-  -- producers of the tensors without one: Placeholder / Const
-  let startup : List OpD := (List.range (ts1.length - base)).filterMap fun j =>
-    let t := base + j
-    match ts1[t]? with
+
+/-- `fixup_tensors` / `clone_and_reshape_tensor`: the Placeholder / Const producers, one per tensor without producer, in tensor
+    order (`base ≤ t < base + n`: tensors of the file; beyond: created while parsing the operators) -/
+def startupOps (ts : List TensorD) (base n : Nat) (ops : List ROp) (inputs : List Nat) : List OpD :=
+  (List.range (ts.length - base)).filterMap fun j =>
+    match ts[base + j]? with
     | none => none
     | some td =>
       if j < n then
-        if produced ops t then none
-        else if inputs.contains t then some (startupOp (if td.values.isNone then "Placeholder" else "Const") t)
-        else some (startupOp (if td.isVariable then "Placeholder" else "Const") t)
-      else if td.src.isSome then some (startupOp "Const" t)      -- clone_and_reshape_tensor
-      else none                                                     -- virtual output: produced by its operator
-  let real : List OpD := (ops.zipIdx.filter fun (op, k) => visible ops k op || virts.any (fun v => op.outputs.contains (some v))).map
-    fun (op, _) => op.toOpD
-  let allOps := startup ++ real
-  let vo : List (Nat × Option Nat) := virts.map fun v => (v, Writer.firstIdx (fun (o : OpD) => o.outputs.contains (some v)) allOps)
-  pure ({ name := sg.name.getD [], cpu := true, ops := allOps, originalInputs := inIdx, inputTensors := [],
-          outputTensors := outputs ++ virts, originalOutputPositions := some positions, virtualOutputs := vo }, ts1)
+        if produced ops (base + j) then none
+        else if inputs.contains (base + j) then some (startupOp (if td.values.isNone then "Placeholder" else "Const") (base + j))
+        else some (startupOp (if td.isVariable then "Placeholder" else "Const") (base + j))
+      else if td.src.isSome then some (startupOp "Const" (base + j))
+      else none
+
+/-- the file's operators that still produce a tensor (or own a virtual output), in file order -/
+def realOps (ops : List ROp) (virts : List Nat) : List OpD :=
+  (ops.zipIdx.filter fun x => visible ops x.2 x.1 || virts.any (fun v => x.1.outputs.contains (some v))).map fun x => x.1.toOpD
+
+def readSubgraph (codes : List RCode) (bufs : List (Option Data)) (ts : List TensorD) (sg : SubGraphT) :
+    Except String (SubgraphD × List TensorD) := do
+  let own ← sg.tensors.mapM (parseTensor bufs)
+  let r ← parseOperators codes ts.length sg.tensors.length sg.operators 0 (ts ++ own)
+  let outIdx ← ioIndices ts.length sg.tensors.length sg.outputs
+  let inIdx ← ioIndices ts.length sg.tensors.length sg.inputs
+  -- fixup_tensors: a subgraph input must not have a producer
+  Writer.check (!(dedupNat inIdx).any (produced r.1)) "vela-error"
+  let positions ← positionsOf (dedupNat outIdx) outIdx
+  pure ({ name := sg.name.getD [], cpu := true,
+          ops := startupOps r.2.1 ts.length sg.tensors.length r.1 (dedupNat inIdx) ++ realOps r.1 r.2.2,
+          originalInputs := inIdx, inputTensors := [], outputTensors := dedupNat outIdx ++ r.2.2,
+          originalOutputPositions := some positions,
+          virtualOutputs := r.2.2.map fun v => (v, Writer.firstIdx (fun (o : OpD) => o.outputs.contains (some v))
+            (startupOps r.2.1 ts.length sg.tensors.length r.1 (dedupNat inIdx) ++ realOps r.1 r.2.2)) }, r.2.1)
 
 def readSubgraphs (codes : List RCode) (bufs : List (Option Data)) : List SubGraphT → List TensorD →
     Except String (List SubgraphD × List TensorD)
   | [], ts => pure ([], ts)
   | sg :: rest, ts => do
-    let (s, ts1) ← readSubgraph codes bufs ts sg
-    let (ss, ts2) ← readSubgraphs codes bufs rest ts1
-    pure (s :: ss, ts2)
+    let r ← readSubgraph codes bufs ts sg
+    let rs ← readSubgraphs codes bufs rest r.2
+    pure (r.1 :: rs.1, rs.2)
 
 def readMetadata (bufs : List (Option Data)) (ms : List MetadataT) : Except String (List MetaD) := do
   let r ← ms.mapM fun m => match m.name with
@@ -307,8 +336,8 @@ def readMetadata (bufs : List (Option Data)) (ms : List MetadataT) : Except Stri
 def read (version : Bytes) (t : ModelT) : Except String Desc := do
   let bufs := t.buffers.map parseBuffer
   let codes ← t.opcodes.mapM parseOpCode
-  let (sgs, ts) ← readSubgraphs codes bufs t.subgraphs []
+  let r ← readSubgraphs codes bufs t.subgraphs []
   let metas ← readMetadata bufs t.metadata
-  pure { tensors := ts, subgraphs := sgs, metadata := metas, version := version }
+  pure { tensors := r.2, subgraphs := r.1, metadata := metas, version := version }
 
 end VelaVerif.Tflite.Reader
